@@ -7,7 +7,9 @@ import random
 from xknx.dpt import DPTArray, DPTBinary
 from xknx.exceptions import CommunicationError, ConversionError, CouldNotParseTelegram
 from xknx.telegram import AddressFilter, Telegram, TelegramDirection
-from xknx.telegram.address import GroupAddress, GroupAddressType, InternalGroupAddress
+from xknx.telegram.address import GroupAddress, GroupAddressType, IndividualAddress, InternalGroupAddress
+from xknx.telegram.apci import DeviceDescriptorRead, DeviceDescriptorResponse
+from xknx.telegram.tpci import TDataConnected, TDataIndividual
 from xknx.telegram.apci import GroupValueRead, GroupValueResponse, GroupValueWrite
 
 import asyncio
@@ -34,7 +36,9 @@ LEVEL_TEXT = (
     "the XKNX constructor) over a pool of group and internal addresses in each of the three notations, 20-120 incoming/outgoing telegrams "
     "processed by the real queue in bursts, registrations added/removed between bursts; in a third of the bursts xknx's own registrants "
     "take part: 1-3 pending ValueReader.read() calls (same or different addresses, answered by a response/write inside the burst or timing "
-    "out) with a user callback registered after them. Exploration: registrations and streams are sampled."
+    "out) with a user callback registered after them; point-to-point telegrams (IndividualAddress destination, T_Data_Individual / "
+    "T_Data_Connected, incoming and outgoing) are mixed in: match-all callbacks must see them, filters / address lists never. "
+    "Exploration: registrations and streams are sampled."
 )
 LEVEL_NOTE = (
     "Trusted: the reference matcher (ranges per level, open ends, reversed ranges, '*', 'i-' globs with * and ?), kept inside the documented "
@@ -120,7 +124,9 @@ def ref_cb_matches(spec: dict, addr: str, outgoing: bool, notation: str) -> tupl
     if outgoing and not spec["outgoing"]:
         return False, "outgoing-not-requested"
     if spec["filters"] is None and spec["addrs"] is None:
-        return True, "all"
+        return True, "all-individual-destination" if addr.startswith("ia:") else "all"
+    if addr.startswith("ia:"):
+        return False, "no-match-individual-destination"  # filters and address lists denote group addresses only
     for f in spec["filters"] or ():
         if ref_filter_match(f, addr, notation):
             return True, "internal-filter" if f.startswith("i-") else "filter"
@@ -211,6 +217,10 @@ def gen_case(rng: random.Random) -> dict:
         n = min(total, rng.randint(1, 12))
         total -= n
         tgs = [(rng.random() < 0.5, rng.choice(pool), rng.choice(("write", "writeb", "response", "read"))) for _ in range(n)]
+        # point-to-point telegrams (IndividualAddress destination) put on xknx.telegrams by user code / tools
+        for _ in range(rng.choice((0, 0, 1, 2))):
+            tgs.insert(rng.randrange(len(tgs) + 1),
+                       (rng.random() < 0.5, "ia:" + rng.choice(("1.1.1", "1.1.250", "15.15.255", "0.0.1")), rng.choice(("p2p_ind", "p2p_con"))))
         change = None
         k = rng.random()
         if k < 0.25:
@@ -239,6 +249,8 @@ def gen_case(rng: random.Random) -> dict:
 
 
 def _addr(a: str):
+    if a.startswith("ia:"):
+        return IndividualAddress(a[3:])
     return InternalGroupAddress(a) if a.startswith("i-") else GroupAddress(int(a))
 
 
@@ -344,13 +356,23 @@ def run_one(ctx, case_seed: str) -> None:
             for outgoing, a, pk in burst["telegrams"]:
                 seqbox[0] += 1
                 seq = seqbox[0]
-                p = _payload(pk, seq)
+                if pk.startswith("p2p"):
+                    p = DeviceDescriptorRead(descriptor=0) if seq % 2 else DeviceDescriptorResponse(descriptor=0, value=seq & 0xFFFF)
+                    tpci = TDataIndividual() if pk == "p2p_ind" else TDataConnected(sequence_number=seq % 16)
+                    t = Telegram(destination_address=_addr(a), payload=p, tpci=tpci)
+                    ctx.count("individual_destination_telegrams")
+                else:
+                    p = _payload(pk, seq)
+                    t = Telegram(destination_address=_addr(a), payload=p)
                 keyof[id(p)] = seq
-                t = Telegram(destination_address=_addr(a), payload=p)
                 keep.append(t)
                 tg_info[seq] = (outgoing, a, active)
                 if outgoing:
                     queue_outgoing(xknx, t)
+                elif pk.startswith("p2p"):
+                    # the cEMI layer hands such frames to management; user code / tools put them on the queue directly
+                    t.direction = TelegramDirection.INCOMING
+                    xknx.telegrams.put_nowait(t)
                 else:
                     inject_incoming(xknx, t)
             ok, _ = await bounded(xknx.join(), 1000.0)
@@ -506,7 +528,8 @@ def run(ctx):
                 "expect_address", "expect_outgoing-not-requested", "expect_no-match", "raising_callback_called",
                 "called_after_a_raising_callback", "device_processed_after_raising_callback", "unregistered_between_bursts",
                 "registered_between_bursts", "value_readers_started", "value_readers_answered", "value_readers_timed_out",
-                "user_callbacks_registered_after_a_pending_reader", "reads_queued_by_value_readers")
+                "user_callbacks_registered_after_a_pending_reader", "reads_queued_by_value_readers",
+                "individual_destination_telegrams", "expect_all-individual-destination", "expect_no-match-individual-destination")
     selftest(ctx)
     n = ctx.scale(1500, 96000)
     for i in range(n):
